@@ -139,6 +139,11 @@ def call_class(entry, info):
     return "%s@%s/%s" % (info["m"], path_class(entry, info["paths"][0]), arg_kind(entry["S"], info["vt"]))
 
 
+def collection_class(entry, info):
+    """for a violation INSIDE a collection argument the optionality of the field is immaterial"""
+    return "%s@%s/%s" % (info["m"], "field" if len(info["paths"][0]) == 1 else "nested-path", arg_kind(entry["S"], info["vt"]))
+
+
 def struct_depth(S, t, path):
     """number of struct levels a path inside an argument crosses"""
     n = 0
@@ -221,15 +226,20 @@ def run(ctx):
         cases[(c["id"], c["lang"])].append(c)
         deep_ids = []
     elif ctx.quick():
-        cases, _ = bc.emit_cases(ctx, batch.ids, maxlen=2)
+        # quick: every single call of every entry; pairs on a seeded third of the entries; triples on one entry
+        cases, _ = bc.emit_cases(ctx, batch.ids, maxlen=1)
         rng = random.Random(ctx.seed)
-        deep_ids = sorted(rng.sample(batch.ids, 1))
-        deep, _ = bc.emit_cases(ctx, deep_ids, maxlen=3)
-        for k, lst in deep.items():
-            have = {sc.dumps(c["pyseq"]) for c in cases[k]}
-            cases[k] += [c for c in lst if sc.dumps(c["pyseq"]) not in have]
-            for i, c in enumerate(cases[k]):
-                c["n"] = i
+        order = list(batch.ids)
+        rng.shuffle(order)
+        pair_ids = sorted(order[:max(1, len(order) // 3)])
+        deep_ids = sorted(order[:1])
+        for ids_, ml in ((pair_ids, 2), (deep_ids, 3)):
+            more, _ = bc.emit_cases(ctx, ids_, maxlen=ml)
+            for k, lst in more.items():
+                have = {sc.dumps(c["pyseq"]) for c in cases[k]}
+                cases[k] += [c for c in lst if sc.dumps(c["pyseq"]) not in have]
+                for i, c in enumerate(cases[k]):
+                    c["n"] = i
     else:
         cases, _ = bc.emit_cases(ctx, batch.ids, maxlen=3)
         deep_ids = list(batch.ids)
@@ -255,8 +265,13 @@ def run(ctx):
                 batch.stats["unit_lang_unbound:" + lang] += 1
                 continue
             pl = bc.Planner(entry, u, lang, bound)
+            pl1 = bc.Planner(entry, u, lang, bound, variant=1)
             has_ctor_args = bool(entry["B"]["Root"]["ctor"]["args"])
+            peers = sorted(x["pkg"] for x in batch.units.values() if x["id"] == u["id"] and x["status"] == "ok" and x["bind"].get(lang)
+                           and (x["pkg"], lang) in D)
             for c in sel.get((u["id"], lang), []):
+                if ctx.quick() and not replay and peers[(c["n"] + ctx.seed) % len(peers)] != u["pkg"]:
+                    continue   # quick: every selected sequence runs on ONE of the entry's input formats (rotating), thorough: on all
                 if not ctx.quick() and not replay and u["fmt"] != "jsonschema" and len([x for x in c["pyseq"] if x["o"] != 0]) > 2 \
                         and any(x["fmt"] == "jsonschema" and x["status"] == "ok" for x in batch.units.values() if x["id"] == u["id"]):
                     continue   # thorough: sequences of 3 calls run on one input format (the builders do not depend on it), shorter ones on all
@@ -271,6 +286,19 @@ def run(ctx):
                 cmd["id"], cmd["op"] = cid, "seq"
                 (go_cmds if lang == "go" else py_cmds).append(cmd)
                 index[cid] = (u, lang, c)
+                if pl.has_choice:
+                    # the same sequence through the duplicated options / copied builders of nested plans
+                    pl.has_choice = False
+                    try:
+                        cmd1 = pl1.root_command("Root", c["pyseq"])
+                    except bc.BindError as e:
+                        plan_errors[str(e)[:120]] += 1
+                        continue
+                    cid1 = cid + "/v1"
+                    cmd1["id"], cmd1["op"] = cid1, "seq"
+                    (go_cmds if lang == "go" else py_cmds).append(cmd1)
+                    index[cid1] = (u, lang, c)
+                    batch.stats["sequences_rerun_through_copies"] += 1
     if plan_errors:
         core.log("call plans that could not be built:", dict(plan_errors))
     gres = bc.run_go(ctx, batch, go_cmds, "seq") if go_cmds else {}
@@ -483,7 +511,8 @@ def run(ctx):
                                                           "" if lang == "go" else ":" + bcls)
                 else:
                     place = violation_place(ci["violations"])
-                    sig = "C09/%s/invalid-reported/%s:%s%s" % (lang, call_class(entry, ci), place, ":" + bcls if place == "top" else "")
+                    sig = "C09/%s/invalid-reported/%s:%s%s" % (lang, call_class(entry, ci) if place == "top" else collection_class(entry, ci),
+                                                               place, ":" + bcls if place == "top" else "")
             what = "%s: %s is not reported (%s); expected %s" % (
                 lang, "a failing nested builder" if (ci and ci["nested"]) else "a constraint-violating argument",
                 "Build() returned no error" if lang == "go" else "the option call did not raise", sc.dumps(base_replay["expected"]))
